@@ -96,11 +96,11 @@ func init() {
 															rq = SymReq{Browser: "b1", Method: []string{"GET", "POST"}[rng.Intn(2)], Route: "App", Arg: string(b),
 																Path: "/app/" + string(b) + "/" + tails[rng.Intn(len(tails))], Query: queries[rng.Intn(len(queries))]}
 															rawLiteral(&rq)
-															if k == 2 && row%3 == 0 {
+															if k == 2 {
 																// the decision does not depend on the method or on headers the client chooses:
 																// a CORS preflight, a HEAD, a PATCH with override headers
 																rq.Method = "PUT"
-																rq.Wire = []string{"OPTIONS", "HEAD", "PATCH"}[(row/3)%3]
+																rq.Wire = []string{"OPTIONS", "OPTIONS", "HEAD", "PATCH"}[(row/7)%4] // independent of the constructor cycle (row%3)
 																rq.Hdr = [][2]string{{"Origin", "https://elsewhere.example"}, {"Access-Control-Request-Method", "DELETE"},
 																	{"Access-Control-Request-Headers", "authorization"}, {"X-HTTP-Method-Override", "GET"}}
 															}
